@@ -11,7 +11,7 @@ import more_itertools
 
 from cirbo.core.boolean_function import RawTruthTableModel
 from cirbo.core.circuit import Circuit
-from cirbo.core.circuit.exceptions import CircuitValidationError
+from cirbo.core.circuit.exceptions import CircuitError
 from cirbo.core.circuit.gate import Label, NOT
 from cirbo.core.circuit.operators import GateState, Undefined
 from cirbo.core.circuit.validation import check_circuit_has_no_cycles
@@ -558,7 +558,12 @@ def minimize_subcircuits(
 
         for output in subcircuit.outputs:
             if output not in filtered_outputs:
-                negation_gate: Label = outputs_negation_mapping[output]
+                negation_gate = outputs_negation_mapping.get(output)
+                if negation_gate not in output_labels_mapping:
+                    # The output equals a leaf, a negated leaf or another output:
+                    # relinking it is not supported, keep the cone as is.
+                    skip_subcircuit = True
+                    break
                 new_gate = output_labels_mapping[negation_gate]
 
                 for user in new_subcircuit.get_gate_users(new_gate):
@@ -566,20 +571,22 @@ def minimize_subcircuits(
                         output_labels_mapping[output] = user
                         new_subcircuit.mark_as_output(user)
                         break
+        if skip_subcircuit:
+            logger.debug("Some outputs have trivial patterns, subcircuit is skipped")
+            continue
 
-        # Changing initial circuit
+        # Changing initial circuit (its copy, the replacement may be impossible)
         new_circuit: Circuit = copy.deepcopy(circuit)
-        _rename_subcircuit_gates(
-            new_circuit, new_subcircuit, input_labels_mapping, output_labels_mapping
-        )
-        new_circuit.replace_subcircuit(
-            new_subcircuit, input_labels_mapping, output_labels_mapping
-        )
-
         try:
+            _rename_subcircuit_gates(
+                new_circuit, new_subcircuit, input_labels_mapping, output_labels_mapping
+            )
+            new_circuit.replace_subcircuit(
+                new_subcircuit, input_labels_mapping, output_labels_mapping
+            )
             check_circuit_has_no_cycles(new_circuit)
-        except CircuitValidationError:
-            logger.debug("Circuit becomes cyclic")
+        except CircuitError:
+            logger.debug("Subcircuit can't be replaced (e.g. circuit becomes cyclic)")
             continue
 
         circuit = new_circuit
